@@ -629,3 +629,77 @@ package codec
 //@   ensures typed: isT(result, message.AbstractIdentifyResponse)
 //@   ensures inverse: wire_eq(result.(message.AbstractIdentifyResponse), m)
 //@   nopanic
+
+// The codec manager: a two-level registry keyed by codec type and message type code. The body
+// codecs behind the Codec interface are abstract here (uninterpreted codec.enc / codec.dec of the
+// codec value and its argument); each concrete codec is verified against the v1 table above.
+
+//@ iface (message.MessageTypeAware).GetTypeCode
+//@   ensures result == ufi("typecode_of", self)
+//@ iface (codec.Codec).Encode
+//@   ensures result == ufs("codec.enc", self, in)
+//@ iface (codec.Codec).Decode
+//@   ensures result == ufval("codec.dec", self, in)
+
+//@ func (*CodecManager).GetCodec
+//@   prop C12
+//@   requires c != nil
+//@   ensures found: c.codecMap[codecType] != nil ==> result == c.codecMap[codecType][msgType]
+//@   ensures none: c.codecMap[codecType] == nil ==> result == nil
+//@   nopanic
+
+//@ func (*CodecManager).RegisterCodec
+//@   prop C12
+//@   inline
+//@   requires c != nil && c.codecMap != nil && codec != nil
+//@   ensures stored: c.codecMap[codecType] != nil && c.codecMap[codecType][ufi("codec.msgtype", codec)] == codec
+//@   nopanic
+//@ iface (codec.Codec).GetMessageType
+//@   ensures result == ufi("codec.msgtype", self)
+
+//@ func (*CodecManager).Encode
+//@   prop C12
+//@   requires c != nil && in != nil && implements(in, message.MessageTypeAware)
+//@   let tc := ufi("typecode_of", in)
+//@   let inner := c.codecMap[codecType]
+//@   let cd := c.codecMap[codecType][tc]
+//@   ensures prefix: inner != nil && cd != nil ==> result == be16(tc % 65536) + ufs("codec.enc", cd, in)
+//@   ensures nocodec: inner == nil || cd == nil ==> result == nil
+//@   nopanic
+
+//@ func (*CodecManager).Decode
+//@   prop C12
+//@   requires c != nil && len(in) >= 2
+//@   let tc := sint16(un16(in[0:2]))
+//@   let inner := c.codecMap[codecType]
+//@   let cd := c.codecMap[codecType][tc]
+//@   ensures dispatch: inner != nil && cd != nil ==> result == ufval("codec.dec", cd, in[2:])
+//@   ensures nocodec: inner == nil || cd == nil ==> result == nil
+//@   nopanic
+
+//@ func Init
+//@   prop C12
+//@   ensures registered-GlobalBeginRequest: isT(codecManager.codecMap[CodecTypeSeata][typecode(message.GlobalBeginRequest)], *GlobalBeginRequestCodec)
+//@   ensures registered-GlobalBeginResponse: isT(codecManager.codecMap[CodecTypeSeata][typecode(message.GlobalBeginResponse)], *GlobalBeginResponseCodec)
+//@   ensures registered-BranchCommitRequest: isT(codecManager.codecMap[CodecTypeSeata][typecode(message.BranchCommitRequest)], *BranchCommitRequestCodec)
+//@   ensures registered-BranchCommitResponse: isT(codecManager.codecMap[CodecTypeSeata][typecode(message.BranchCommitResponse)], *BranchCommitResponseCodec)
+//@   ensures registered-BranchRollbackRequest: isT(codecManager.codecMap[CodecTypeSeata][typecode(message.BranchRollbackRequest)], *BranchRollbackRequestCodec)
+//@   ensures registered-BranchRollbackResponse: isT(codecManager.codecMap[CodecTypeSeata][typecode(message.BranchRollbackResponse)], *BranchRollbackResponseCodec)
+//@   ensures registered-GlobalCommitRequest: isT(codecManager.codecMap[CodecTypeSeata][typecode(message.GlobalCommitRequest)], *GlobalCommitRequestCodec)
+//@   ensures registered-GlobalCommitResponse: isT(codecManager.codecMap[CodecTypeSeata][typecode(message.GlobalCommitResponse)], *GlobalCommitResponseCodec)
+//@   ensures registered-GlobalRollbackRequest: isT(codecManager.codecMap[CodecTypeSeata][typecode(message.GlobalRollbackRequest)], *GlobalRollbackRequestCodec)
+//@   ensures registered-GlobalRollbackResponse: isT(codecManager.codecMap[CodecTypeSeata][typecode(message.GlobalRollbackResponse)], *GlobalRollbackResponseCodec)
+//@   ensures registered-BranchRegisterRequest: isT(codecManager.codecMap[CodecTypeSeata][typecode(message.BranchRegisterRequest)], *BranchRegisterRequestCodec)
+//@   ensures registered-BranchRegisterResponse: isT(codecManager.codecMap[CodecTypeSeata][typecode(message.BranchRegisterResponse)], *BranchRegisterResponseCodec)
+//@   ensures registered-BranchReportRequest: isT(codecManager.codecMap[CodecTypeSeata][typecode(message.BranchReportRequest)], *BranchReportRequestCodec)
+//@   ensures registered-BranchReportResponse: isT(codecManager.codecMap[CodecTypeSeata][typecode(message.BranchReportResponse)], *BranchReportResponseCodec)
+//@   ensures registered-GlobalStatusRequest: isT(codecManager.codecMap[CodecTypeSeata][typecode(message.GlobalStatusRequest)], *GlobalStatusRequestCodec)
+//@   ensures registered-GlobalStatusResponse: isT(codecManager.codecMap[CodecTypeSeata][typecode(message.GlobalStatusResponse)], *GlobalStatusResponseCodec)
+//@   ensures registered-GlobalReportRequest: isT(codecManager.codecMap[CodecTypeSeata][typecode(message.GlobalReportRequest)], *GlobalReportRequestCodec)
+//@   ensures registered-GlobalReportResponse: isT(codecManager.codecMap[CodecTypeSeata][typecode(message.GlobalReportResponse)], *GlobalReportResponseCodec)
+//@   ensures registered-GlobalLockQueryRequest: isT(codecManager.codecMap[CodecTypeSeata][typecode(message.GlobalLockQueryRequest)], *GlobalLockQueryRequestCodec)
+//@   ensures registered-GlobalLockQueryResponse: isT(codecManager.codecMap[CodecTypeSeata][typecode(message.GlobalLockQueryResponse)], *GlobalLockQueryResponseCodec)
+//@   ensures registered-RegisterTMRequest: isT(codecManager.codecMap[CodecTypeSeata][typecode(message.RegisterTMRequest)], *RegisterTMRequestCodec)
+//@   ensures registered-RegisterTMResponse: isT(codecManager.codecMap[CodecTypeSeata][typecode(message.RegisterTMResponse)], *RegisterTMResponseCodec)
+//@   ensures registered-RegisterRMRequest: isT(codecManager.codecMap[CodecTypeSeata][typecode(message.RegisterRMRequest)], *RegisterRMRequestCodec)
+//@   ensures registered-RegisterRMResponse: isT(codecManager.codecMap[CodecTypeSeata][typecode(message.RegisterRMResponse)], *RegisterRMResponseCodec)
